@@ -57,6 +57,11 @@ def script_for(ctx, cache, key, data, dest, target, mode):
         R("hard_link_hash_unchecked", sri=sri, to=os.path.join(dest, "hlu")),
         R("reflink", key=key, to=os.path.join(dest, "rl")),
         R("reflink_unchecked", key=key, to=os.path.join(dest, "rlu")),
+        # again, onto destinations that now exist (and have neighbours called <name>.tmp / .bak / ~)
+        R("copy", key=key, to=os.path.join(dest, "copy")),
+        R("copy_unchecked", key=key, to=os.path.join(dest, "report.bin")),
+        R("copy_hash", sri=sri, to=os.path.join(dest, "archive.tar.gz")),
+        R("hard_link", key=key, to=os.path.join(dest, "hl")),
         R("writer", key=key, opts={"size": len(data) + 1, "metadata": {"m": 1}}, chunks=[ctx.data(data), ctx.data(b"!")]),
         R("writer", key=key, opts={}, chunks=[ctx.data(data)], final="drop"),
         R("write_hash", data=ctx.data(data + b"#")),
@@ -139,6 +144,13 @@ def run(ctx):
             target = os.path.join(decoy, "home", "linked-target.bin")
             open(target, "wb").write(b"link target bytes")
             data = f"data for key #{ki}".encode()
+            # pre-existing destinations and look-alike neighbours: only the named destination may change
+            neighbours = {}
+            for nm in ("report.bin", "archive.tar.gz"):
+                open(os.path.join(dest, nm), "wb").write(b"old extraction")
+            for nm in ("copy.tmp", "report.tmp", "archive.tar.tmp", "archive.tmp", "copy.bak", "copy~", ".copy.swp", "hl.tmp"):
+                open(os.path.join(dest, nm), "wb").write(b"neighbour " + nm.encode())
+                neighbours[nm] = b"neighbour " + nm.encode()
             script = script_for(ctx, cache, key, data, dest, target, mode)
             spath = os.path.join(base, "script.jsonl")
             import json
@@ -250,6 +262,24 @@ def run(ctx):
                             ctx.violation(f"read|{mode}|damaged-content-file-removed",
                                           "after read-only calls on damaged content the content file is gone", det_base)
                             break
+            # (1c) the destination directory holds exactly the named destinations and its untouched neighbours
+            named = {os.path.basename(q["to"]) for q in script if q.get("to")}
+            try:
+                present = set(os.listdir(dest))
+            except OSError:
+                present = set()
+            for nm, content in neighbours.items():
+                try:
+                    okc = open(os.path.join(dest, nm), "rb").read() == content
+                except OSError:
+                    okc = False
+                if not okc:
+                    ctx.violation(f"extract|{mode}|neighbour-of-destination-changed",
+                                  f"a file next to an extraction destination ({nm}) was changed or removed", det_base)
+            extra = present - named - set(neighbours)
+            if extra:
+                ctx.violation(f"extract|{mode}|stray-file-next-to-destination",
+                              f"extraction left files nobody named next to the destinations: {sorted(extra)[:4]}", det_base)
             # (4) decoy untouched (the link target is opened read-only; atime is not part of the snapshot)
             if before != after:
                 ch = [k for k in set(before) | set(after) if before.get(k) != after.get(k)]
